@@ -86,6 +86,15 @@ class Exec(ExprMixin, StmtMixin, CallMixin):
         self.prune_if_dead(st)
         return False
 
+    def qf_consistent(self, st):
+        s = z3.Solver()
+        s.set('timeout', 400)
+        s.set('rlimit', 3000000)
+        for f in st.pc:
+            if not self.has_quantifier(f) and not self.has_recfun(f):
+                s.add(f)
+        return s.check() != z3.unsat
+
     def prune_if_dead(self, st):
         """stop exploring a branch whose quantifier-free path condition is already contradictory (sound: hypotheses are only dropped)"""
         s = z3.Solver()
@@ -245,6 +254,8 @@ class Exec(ExprMixin, StmtMixin, CallMixin):
         ct = self.ct
         for p in ct.params:
             name, sort = p[0], p[1]
+            if name.startswith('**'):
+                continue                                  # bound through ct.statics (verified for the stated keyword shape)
             v = const(sort, 'arg_' + name) if not isinstance(sort, PyVal) else sort
             st.env[name] = v
             self.assume_type_invariant(st, v)
@@ -340,6 +351,7 @@ class Exec(ExprMixin, StmtMixin, CallMixin):
         else:
             result = NONE_V
         self.exits['normal'] += 1
+        self.covers.append(('normal-exit-reachable', list(st.pc)))
         self.apply_ghost_exit(st, result)
         self.check_normal_exit(st, result)
 
@@ -415,7 +427,16 @@ class Exec(ExprMixin, StmtMixin, CallMixin):
     def modifies_sets(self, st_old, mod_list=None):
         """field key -> list of ref terms that may be modified, or None when the whole field may change"""
         out = {}
+        self.fresh_only = set()
         for m in (self.ct.modifies if mod_list is None else mod_list):
+            if m.startswith('fresh:'):
+                # the field may differ only at objects that were not allocated at entry (checked like an absent entry; havoced
+                # at call sites with the frame over the objects allocated before the call)
+                base, _, attr = m[6:].rpartition('.')
+                key = self.reg.field_key(base, attr) or '%s.%s' % (base, attr)
+                out.setdefault(key, [])
+                self.fresh_only.add(key)
+                continue
             base, _, attr = m.rpartition('.')
             if base in self.prog.classes or base in self.reg.classes or (base[:1].isupper() and base.isidentifier() and base not in st_old.env):
                 key = self.reg.field_key(base, attr) or '%s.%s' % (base, attr)
